@@ -176,7 +176,7 @@ package pub
 //@ [C10] ensures error_unwritten: result0 && result1 != nil ==> libWrote == 0
 //@ [C10] ensures one_status: result0 && result1 == nil ==> wrote == 1
 //@ [C10] ensures status_200: result0 && result1 == nil && authed ==> status == 200
-//@ modifies $db, authed, wrote, libWrote, status, sentHdr, bodyWrites, hdr, bufstr, nowTick, lastBody, servedValue, delegateValue, servedJSON, gR, gSrc, gWit, gKept, gDup, dedupedValue
+//@ modifies $db, authed, wrote, libWrote, status, sentHdr, bodyWrites, hdr, bufstr, nowTick, lastBody, servedValue, delegateValue, servedJSON, gR, gSrc, gWit, gKept, gDup, dedupedValue, leakServed
 //@ [C20] at call pub.DelegateActor.GetInbox#1: ghost delegateValue = $res0
 //@ [C20] at call streams.Serialize#1: ghost servedValue = $arg0
 //@ [C20] at call encoding/json.Marshal#1: assert marshals_the_serialisation: $arg0.pl == m
@@ -202,7 +202,7 @@ package pub
 //@ [C10] ensures error_unwritten: result0 && result1 != nil ==> libWrote == 0
 //@ [C10] ensures one_status: result0 && result1 == nil ==> wrote == 1
 //@ [C10] ensures status_200: result0 && result1 == nil && authed ==> status == 200
-//@ modifies $db, authed, wrote, libWrote, status, sentHdr, bodyWrites, hdr, bufstr, nowTick, lastBody, servedValue, delegateValue, servedJSON
+//@ modifies $db, authed, wrote, libWrote, status, sentHdr, bodyWrites, hdr, bufstr, nowTick, lastBody, servedValue, delegateValue, servedJSON, leakServed
 //@ [C20] at call pub.DelegateActor.GetOutbox#1: ghost delegateValue = $res0
 //@ [C20] at call streams.Serialize#1: ghost servedValue = $arg0
 //@ [C20] at call encoding/json.Marshal#1: assert marshals_the_serialisation: $arg0.pl == m
@@ -490,26 +490,26 @@ package pub
 //@ loop 6 [C09] invariant unlocked: held == emp
 //@ loop 6 [C08] invariant unlocked: held == emp
 //@ [C03] ensures stripped_on_success: err == nil ==> stripped(activity)
-//@ loop 1 [C03x] invariant length: to == props[activity]["ActivityStreamsTo"] && len(r) == 0 + (iter == nil ? to.Len() : ipos(iter))
-//@ loop 1 [C03x] invariant segment0: (forall j Int :: {r[0 + j]} 0 <= j && j < (iter == nil ? to.Len() : ipos(iter)) ==> r[0 + j] == elemId(props[activity]["ActivityStreamsTo"].At(j)))
-//@ loop 1 [C03x] invariant position: iter != nil ==> iter == to.At(ipos(iter)) && iparent(iter) == to && ilen(iter) == to.Len()
-//@ loop 2 [C03x] invariant length: bto == props[activity]["ActivityStreamsBto"] && len(r) == plen(props[activity]["ActivityStreamsTo"]) + (iter == nil ? bto.Len() : ipos(iter))
-//@ loop 2 [C03x] invariant segment0: (forall j Int :: {r[plen(props[activity]["ActivityStreamsTo"]) + j]} 0 <= j && j < (iter == nil ? bto.Len() : ipos(iter)) ==> r[plen(props[activity]["ActivityStreamsTo"]) + j] == elemId(props[activity]["ActivityStreamsBto"].At(j)))
-//@ loop 2 [C03x] invariant position: iter != nil ==> iter == bto.At(ipos(iter)) && iparent(iter) == bto && ilen(iter) == bto.Len()
-//@ loop 3 [C03x] invariant length: cc == props[activity]["ActivityStreamsCc"] && len(r) == plen(props[activity]["ActivityStreamsTo"]) + plen(props[activity]["ActivityStreamsBto"]) + (iter == nil ? cc.Len() : ipos(iter))
-//@ loop 3 [C03x] invariant segment0: (forall j Int :: {r[plen(props[activity]["ActivityStreamsTo"]) + plen(props[activity]["ActivityStreamsBto"]) + j]} 0 <= j && j < (iter == nil ? cc.Len() : ipos(iter)) ==> r[plen(props[activity]["ActivityStreamsTo"]) + plen(props[activity]["ActivityStreamsBto"]) + j] == elemId(props[activity]["ActivityStreamsCc"].At(j)))
-//@ loop 3 [C03x] invariant segment1: (forall j Int :: {r[plen(props[activity]["ActivityStreamsTo"]) + j]} 0 <= j && j < plen(props[activity]["ActivityStreamsBto"]) ==> r[plen(props[activity]["ActivityStreamsTo"]) + j] == elemId(props[activity]["ActivityStreamsBto"].At(j)))
-//@ loop 3 [C03x] invariant position: iter != nil ==> iter == cc.At(ipos(iter)) && iparent(iter) == cc && ilen(iter) == cc.Len()
-//@ loop 4 [C03x] invariant length: bcc == props[activity]["ActivityStreamsBcc"] && len(r) == plen(props[activity]["ActivityStreamsTo"]) + plen(props[activity]["ActivityStreamsBto"]) + plen(props[activity]["ActivityStreamsCc"]) + (iter == nil ? bcc.Len() : ipos(iter))
-//@ loop 4 [C03x] invariant segment0: (forall j Int :: {r[plen(props[activity]["ActivityStreamsTo"]) + plen(props[activity]["ActivityStreamsBto"]) + plen(props[activity]["ActivityStreamsCc"]) + j]} 0 <= j && j < (iter == nil ? bcc.Len() : ipos(iter)) ==> r[plen(props[activity]["ActivityStreamsTo"]) + plen(props[activity]["ActivityStreamsBto"]) + plen(props[activity]["ActivityStreamsCc"]) + j] == elemId(props[activity]["ActivityStreamsBcc"].At(j)))
-//@ loop 4 [C03x] invariant segment1: (forall j Int :: {r[plen(props[activity]["ActivityStreamsTo"]) + j]} 0 <= j && j < plen(props[activity]["ActivityStreamsBto"]) ==> r[plen(props[activity]["ActivityStreamsTo"]) + j] == elemId(props[activity]["ActivityStreamsBto"].At(j)))
-//@ loop 4 [C03x] invariant position: iter != nil ==> iter == bcc.At(ipos(iter)) && iparent(iter) == bcc && ilen(iter) == bcc.Len()
-//@ loop 5 [C03x] invariant length: audience == props[activity]["ActivityStreamsAudience"] && len(r) == plen(props[activity]["ActivityStreamsTo"]) + plen(props[activity]["ActivityStreamsBto"]) + plen(props[activity]["ActivityStreamsCc"]) + plen(props[activity]["ActivityStreamsBcc"]) + (iter == nil ? audience.Len() : ipos(iter))
-//@ loop 5 [C03x] invariant segment0: (forall j Int :: {r[plen(props[activity]["ActivityStreamsTo"]) + plen(props[activity]["ActivityStreamsBto"]) + plen(props[activity]["ActivityStreamsCc"]) + plen(props[activity]["ActivityStreamsBcc"]) + j]} 0 <= j && j < (iter == nil ? audience.Len() : ipos(iter)) ==> r[plen(props[activity]["ActivityStreamsTo"]) + plen(props[activity]["ActivityStreamsBto"]) + plen(props[activity]["ActivityStreamsCc"]) + plen(props[activity]["ActivityStreamsBcc"]) + j] == elemId(props[activity]["ActivityStreamsAudience"].At(j)))
-//@ loop 5 [C03x] invariant segment1: (forall j Int :: {r[plen(props[activity]["ActivityStreamsTo"]) + j]} 0 <= j && j < plen(props[activity]["ActivityStreamsBto"]) ==> r[plen(props[activity]["ActivityStreamsTo"]) + j] == elemId(props[activity]["ActivityStreamsBto"].At(j)))
-//@ loop 5 [C03x] invariant segment2: (forall j Int :: {r[plen(props[activity]["ActivityStreamsTo"]) + plen(props[activity]["ActivityStreamsBto"]) + plen(props[activity]["ActivityStreamsCc"]) + j]} 0 <= j && j < plen(props[activity]["ActivityStreamsBcc"]) ==> r[plen(props[activity]["ActivityStreamsTo"]) + plen(props[activity]["ActivityStreamsBto"]) + plen(props[activity]["ActivityStreamsCc"]) + j] == elemId(props[activity]["ActivityStreamsBcc"].At(j)))
-//@ loop 5 [C03x] invariant position: iter != nil ==> iter == audience.At(ipos(iter)) && iparent(iter) == audience && ilen(iter) == audience.Len()
-//@ [C03x] at call pub.filterURLs#1: assert hidden_recipients_collected_before_stripping: (forall j Int :: {$arg0[plen(props[activity]["ActivityStreamsTo"]) + j]} 0 <= j && j < plen(props[activity]["ActivityStreamsBto"]) ==> $arg0[plen(props[activity]["ActivityStreamsTo"]) + j] == elemId(props[activity]["ActivityStreamsBto"].At(j))) && (forall j Int :: {$arg0[plen(props[activity]["ActivityStreamsTo"]) + plen(props[activity]["ActivityStreamsBto"]) + plen(props[activity]["ActivityStreamsCc"]) + j]} 0 <= j && j < plen(props[activity]["ActivityStreamsBcc"]) ==> $arg0[plen(props[activity]["ActivityStreamsTo"]) + plen(props[activity]["ActivityStreamsBto"]) + plen(props[activity]["ActivityStreamsCc"]) + j] == elemId(props[activity]["ActivityStreamsBcc"].At(j))) && props == old(props)
+//@ loop 1 [C03] invariant length: to == props[activity]["ActivityStreamsTo"] && len(r) == 0 + (iter == nil ? to.Len() : ipos(iter))
+//@ loop 1 [C03] invariant segment0: (forall j Int :: {props[activity]["ActivityStreamsTo"].At(j)} 0 <= j && j < (iter == nil ? to.Len() : ipos(iter)) ==> r[0 + j] == elemId(props[activity]["ActivityStreamsTo"].At(j)))
+//@ loop 1 [C03] invariant position: iter != nil ==> iter == to.At(ipos(iter)) && iparent(iter) == to && ilen(iter) == to.Len()
+//@ loop 2 [C03] invariant length: bto == props[activity]["ActivityStreamsBto"] && len(r) == plen(props[activity]["ActivityStreamsTo"]) + (iter == nil ? bto.Len() : ipos(iter))
+//@ loop 2 [C03] invariant segment0: (forall j Int :: {props[activity]["ActivityStreamsBto"].At(j)} 0 <= j && j < (iter == nil ? bto.Len() : ipos(iter)) ==> r[plen(props[activity]["ActivityStreamsTo"]) + j] == elemId(props[activity]["ActivityStreamsBto"].At(j)))
+//@ loop 2 [C03] invariant position: iter != nil ==> iter == bto.At(ipos(iter)) && iparent(iter) == bto && ilen(iter) == bto.Len()
+//@ loop 3 [C03] invariant length: cc == props[activity]["ActivityStreamsCc"] && len(r) == plen(props[activity]["ActivityStreamsTo"]) + plen(props[activity]["ActivityStreamsBto"]) + (iter == nil ? cc.Len() : ipos(iter))
+//@ loop 3 [C03] invariant segment0: (forall j Int :: {props[activity]["ActivityStreamsCc"].At(j)} 0 <= j && j < (iter == nil ? cc.Len() : ipos(iter)) ==> r[plen(props[activity]["ActivityStreamsTo"]) + plen(props[activity]["ActivityStreamsBto"]) + j] == elemId(props[activity]["ActivityStreamsCc"].At(j)))
+//@ loop 3 [C03] invariant segment1: (forall j Int :: {props[activity]["ActivityStreamsBto"].At(j)} 0 <= j && j < plen(props[activity]["ActivityStreamsBto"]) ==> r[plen(props[activity]["ActivityStreamsTo"]) + j] == elemId(props[activity]["ActivityStreamsBto"].At(j)))
+//@ loop 3 [C03] invariant position: iter != nil ==> iter == cc.At(ipos(iter)) && iparent(iter) == cc && ilen(iter) == cc.Len()
+//@ loop 4 [C03] invariant length: bcc == props[activity]["ActivityStreamsBcc"] && len(r) == plen(props[activity]["ActivityStreamsTo"]) + plen(props[activity]["ActivityStreamsBto"]) + plen(props[activity]["ActivityStreamsCc"]) + (iter == nil ? bcc.Len() : ipos(iter))
+//@ loop 4 [C03] invariant segment0: (forall j Int :: {props[activity]["ActivityStreamsBcc"].At(j)} 0 <= j && j < (iter == nil ? bcc.Len() : ipos(iter)) ==> r[plen(props[activity]["ActivityStreamsTo"]) + plen(props[activity]["ActivityStreamsBto"]) + plen(props[activity]["ActivityStreamsCc"]) + j] == elemId(props[activity]["ActivityStreamsBcc"].At(j)))
+//@ loop 4 [C03] invariant segment1: (forall j Int :: {props[activity]["ActivityStreamsBto"].At(j)} 0 <= j && j < plen(props[activity]["ActivityStreamsBto"]) ==> r[plen(props[activity]["ActivityStreamsTo"]) + j] == elemId(props[activity]["ActivityStreamsBto"].At(j)))
+//@ loop 4 [C03] invariant position: iter != nil ==> iter == bcc.At(ipos(iter)) && iparent(iter) == bcc && ilen(iter) == bcc.Len()
+//@ loop 5 [C03] invariant length: audience == props[activity]["ActivityStreamsAudience"] && len(r) == plen(props[activity]["ActivityStreamsTo"]) + plen(props[activity]["ActivityStreamsBto"]) + plen(props[activity]["ActivityStreamsCc"]) + plen(props[activity]["ActivityStreamsBcc"]) + (iter == nil ? audience.Len() : ipos(iter))
+//@ loop 5 [C03] invariant segment0: (forall j Int :: {props[activity]["ActivityStreamsAudience"].At(j)} 0 <= j && j < (iter == nil ? audience.Len() : ipos(iter)) ==> r[plen(props[activity]["ActivityStreamsTo"]) + plen(props[activity]["ActivityStreamsBto"]) + plen(props[activity]["ActivityStreamsCc"]) + plen(props[activity]["ActivityStreamsBcc"]) + j] == elemId(props[activity]["ActivityStreamsAudience"].At(j)))
+//@ loop 5 [C03] invariant segment1: (forall j Int :: {props[activity]["ActivityStreamsBto"].At(j)} 0 <= j && j < plen(props[activity]["ActivityStreamsBto"]) ==> r[plen(props[activity]["ActivityStreamsTo"]) + j] == elemId(props[activity]["ActivityStreamsBto"].At(j)))
+//@ loop 5 [C03] invariant segment2: (forall j Int :: {props[activity]["ActivityStreamsBcc"].At(j)} 0 <= j && j < plen(props[activity]["ActivityStreamsBcc"]) ==> r[plen(props[activity]["ActivityStreamsTo"]) + plen(props[activity]["ActivityStreamsBto"]) + plen(props[activity]["ActivityStreamsCc"]) + j] == elemId(props[activity]["ActivityStreamsBcc"].At(j)))
+//@ loop 5 [C03] invariant position: iter != nil ==> iter == audience.At(ipos(iter)) && iparent(iter) == audience && ilen(iter) == audience.Len()
+//@ [C03] at call pub.filterURLs#1: assert hidden_recipients_collected_before_stripping: (forall j Int :: {props[activity]["ActivityStreamsBto"].At(j)} 0 <= j && j < plen(props[activity]["ActivityStreamsBto"]) ==> $arg0[plen(props[activity]["ActivityStreamsTo"]) + j] == elemId(props[activity]["ActivityStreamsBto"].At(j))) && (forall j Int :: {props[activity]["ActivityStreamsBcc"].At(j)} 0 <= j && j < plen(props[activity]["ActivityStreamsBcc"]) ==> $arg0[plen(props[activity]["ActivityStreamsTo"]) + plen(props[activity]["ActivityStreamsBto"]) + plen(props[activity]["ActivityStreamsCc"]) + j] == elemId(props[activity]["ActivityStreamsBcc"].At(j))) && props == old(props)
 
 //@ func (*pub.sideEffectActor).resolveActors
 //@ params a, c, t, r, depth, maxDepth
@@ -1127,9 +1127,15 @@ package pub
 
 //@ func pub.clearSensitiveFields
 //@ params obj
-//@ modifies ASH, ASHP, props
+//@ modifies props
 //@ [C11] decreases tdepth(obj)
 //@ [C11] at call pub.clearSensitiveFields#1: assume! finite_tree: 0 <= tdepth($arg0) && tdepth($arg0) < tdepth(obj)
+//@ [C03] ensures deep_stripped: forall x Iface :: {reachObj(obj, x)} reachObj(obj, x) ==> strippedVal(x)
+//@ [C03] ensures only_hidden_slots_cleared: forall v Iface, k String :: {props[v][k]} (k != "ActivityStreamsBto" && k != "ActivityStreamsBcc" ==> props[v][k] == old(props[v][k])) && (props[v][k] == old(props[v][k]) || props[v][k] == nil)
+//@ loop 1 [C03] invariant only_hidden_slots_cleared: forall v Iface, k String :: {props[v][k]} (k != "ActivityStreamsBto" && k != "ActivityStreamsBcc" ==> props[v][k] == old(props[v][k])) && (props[v][k] == old(props[v][k]) || props[v][k] == nil)
+//@ loop 1 [C03] invariant top_cleared: strippedVal(obj) && op == props[obj]["ActivityStreamsObject"] && op != nil && implements(obj, "pub.objecter")
+//@ loop 1 [C03] invariant position: iter != nil ==> iter == op.At(ipos(iter)) && iparent(iter) == op && ilen(iter) == op.Len()
+//@ loop 1 [C03] invariant children_done: forall j Int, x Iface :: {reachObj(op.At(j).GetType(), x)} 0 <= j && j < (iter == nil ? op.Len() : ipos(iter)) && reachObj(op.At(j).GetType(), x) ==> strippedVal(x)
 
 //@ func pub.dedupeOrderedItems
 //@ params oc
@@ -1204,9 +1210,10 @@ package pub
 //@ [C10] ensures not_handled: !isASRequest ==> wrote == 0 && err == nil
 //@ [C10] ensures error_unwritten: isASRequest && err != nil ==> libWrote == 0
 //@ [C10] ensures one_status: isASRequest && err == nil ==> wrote == 1 && status == (tomb ? 410 : 200)
-//@ modifies $db, tomb, wrote, libWrote, status, sentHdr, bodyWrites, hdr, bufstr, nowTick, lastBody, servedValue, delegateValue, servedJSON, H:net/url.URL.Host, H:net/url.URL.Scheme, A:Int, A:Iface
+//@ modifies $db, tomb, leakServed, wrote, libWrote, status, sentHdr, bodyWrites, hdr, bufstr, nowTick, lastBody, servedValue, delegateValue, servedJSON, H:net/url.URL.Host, H:net/url.URL.Scheme, A:Int, A:Iface
 //@ [C10] at call streams.IsOrExtendsActivityStreamsTombstone#1: ghost tomb = $res0
 //@ [C10] ensures not_found: isASRequest && err == pub.ErrNotFound ==> wrote == 0
+//@ [C03] ensures no_hidden_recipients_served: leakServed == old(leakServed)
 
 //@ [C20] at call pub.Database.Get#1: ghost delegateValue = $res0
 //@ [C20] at call streams.Serialize#1: ghost servedValue = $arg0
